@@ -57,3 +57,19 @@ Lemma all_in_range_ok lo len P :
 Proof.
   unfold all_in_range. rewrite forallb_forall. intros H N HN. apply H. apply in_seq. lia.
 Qed.
+
+(* ---------------- validation (methods/base.hpp constructor + methods/landmark_*.hpp validate()) ------
+   constructor:  target_dimension InRange(1, n_vectors)            i.e. 1 <= d < N
+   validate():   landmark_ratio InClosedRange(3.0 / n_vectors, 1.0)
+   since fix F21 (b4b2738) also:
+                 n_landmarks = static_cast<IndexType>(n_vectors * landmark_ratio);
+                 target_dimension InClosedRange(1, n_landmarks)                                   *)
+Definition lmds_validate_old (N d : nat) (ratio : float) : bool :=
+  Nat.leb 1 d && Nat.ltb d N && ratio_valid N ratio.
+
+Definition lmds_validate (N d : nat) (ratio : float) : bool :=
+  lmds_validate_old N d ratio &&
+  match n_landmarks_fl N ratio with
+  | Some z => (Z.of_nat d <=? z)%Z
+  | None => false
+  end.
